@@ -255,6 +255,21 @@ def butter_real(ctx):
     ctx.count_case(('F17-1',), True, sample={'fn': 'Signal.butter_pass', 'cut_off': 'np.array([0.5, 10.0])', 'witness_of': 'F17-1'})
     ctx.oracle('C17.a cut-offs may be given as list, tuple or array: an ndarray is accepted', res[0] == 'ok',
                {'values': 'sin(2*pi*2*t), n=4000', 'dt': 0.01, 'cut_off': [0.5, 10.0], 'container': 'ndarray'}, detail=res)
+    # integer-typed cut-offs (Python ints, int arrays) are the same frequencies: same result as with floats, for every container and type
+    for cut_i in ([1, 10], [None, 5], [2, None], [3, 20]):
+        for cont in ('list', 'tuple', 'ndarray'):
+            if cont == 'ndarray' and None in cut_i:
+                continue
+            co_i = {'list': list(cut_i), 'tuple': tuple(cut_i), 'ndarray': np.array(cut_i)}[cont]
+            co_f = [None if c is None else float(c) for c in cut_i]
+            s_i, s_f = eqsig.Signal(x.copy(), 0.01), eqsig.Signal(x.copy(), 0.01)
+            r_i = call_impl(lambda: (s_i.butter_pass(co_i), np.array(s_i.values))[1])
+            r_f = call_impl(lambda: (s_f.butter_pass(co_f), np.array(s_f.values))[1])
+            ctx.hist('butter_pass/integer-typed cut-offs/' + cont)
+            ctx.oracle('C17.a cut-offs may be given as list, tuple or array: integer-typed cut-offs give the result of the same frequencies as floats',
+                       r_f[0] == 'ok' and r_i[0] == 'ok' and np.array_equal(r_i[1], r_f[1]),
+                       {'values': 'sin(2*pi*2*t), n=4000', 'dt': 0.01, 'cut_off': [c for c in cut_i], 'container': cont + ' of ints'},
+                       detail=r_i if r_i[0] != 'ok' else None, facts={'container': cont})
     n_cases = 200 if ctx.tier == 'quick' else 1500
     prev = None
     for i in range(n_cases):
